@@ -24,14 +24,14 @@ SPEC = dict(
     technique='libc interposition (virtual clock, scripted epoll_wait/send/recv), alive-flag tombstones, independent poll() oracle, TSan',
     exhaustive={Q: False, T: False},
     jobs=[
-        job('world', 'h_server_loop', 'world', cases={Q: 4000, T: 160000}, procs=16, sources=SRC),
-        job('equal-due', 'h_server_loop', 'equal-due', cases=-1, scale={Q: 8, T: 12}, procs=16, sources=SRC),
-        job('threads-plain', 'h_server_loop', 'threads', variant='plain', cases={Q: 200, T: 5000}, procs=8, weight=2, sources=SRC, timeout=600),
-        job('threads-tsan', 'h_server_loop', 'threads', variant='tsan', cases={Q: 200, T: 5000}, procs=8, weight=2, sources=SRC, timeout=600),
+        job('world', 'h_server_loop', 'world', cases={Q: 10000, T: 160000}, procs=16, sources=SRC),
+        job('equal-due', 'h_server_loop', 'equal-due', cases=-1, scale={Q: 10, T: 12}, procs=16, sources=SRC),
+        job('threads-plain', 'h_server_loop', 'threads', variant='plain', cases={Q: 300, T: 5000}, procs=8, weight=2, sources=SRC, timeout=600),
+        job('threads-tsan', 'h_server_loop', 'threads', variant='tsan', cases={Q: 300, T: 5000}, procs=8, weight=2, sources=SRC, timeout=600),
     ],
-    floors={Q: dict(cases=4800, callbacks=100000, timer_activations=40000, timers_removed=4000, timers_removed_from_equal_run_of_3plus=600, clients_removed=2000,
-                    removed_with_selected_event=100, onAccepted=200, onConnected=100, onAbolished=50, independent_poll_checks=20000, timer_due_checks=20000,
-                    eintr_injected=100, oversleep_injected=200, run_returns=4000, threaded_interrupt_calls=4000, threaded_run_returns=2000,
+    floors={Q: dict(cases=11000, callbacks=2000000, timer_activations=1500000, timers_removed=80000, timers_removed_from_equal_run_of_3plus=40000, clients_removed=70000,
+                    removed_with_selected_event=3000, onAccepted=30000, onConnected=12000, onAbolished=8000, independent_poll_checks=1500000, timer_due_checks=500000,
+                    eintr_injected=4000, oversleep_injected=50000, run_returns=100000, threaded_interrupt_calls=8000, threaded_run_returns=6000,
                     **{'set:removal_classes': 20, 'set:interrupt_venues': 7}),
             T: dict(cases=170000, callbacks=4000000, timer_activations=1600000, timers_removed=160000, timers_removed_from_equal_run_of_3plus=24000, clients_removed=80000,
                     removed_with_selected_event=8000, onAccepted=16000, onConnected=8000, onAbolished=4000, independent_poll_checks=1600000, timer_due_checks=1600000,
